@@ -415,7 +415,12 @@ func (fc *funcContext) translateExpr(expr ast.Expr) *expression {
 				}
 				return fc.formatExpr("%e / %e", e.X, e.Y)
 			case token.REM:
-				return fc.formatExpr(`(%1s = %2e %% %3e, %1s === %1s ? %1s : $throwRuntimeError("integer divide by zero"))`, fc.newLocalVariable("_r"), e.X, e.Y)
+				// JavaScript's % gives -0 for a negative dividend and a zero remainder; the coercion makes it the integer 0.
+				coerce := ">>"
+				if isUnsigned(basic) {
+					coerce = ">>>"
+				}
+				return fc.formatExpr(`(%1s = %2e %% %3e, %1s === %1s ? %1s %4s 0 : $throwRuntimeError("integer divide by zero"))`, fc.newLocalVariable("_r"), e.X, e.Y, coerce)
 			case token.SHL, token.SHR:
 				op := e.Op.String()
 				if e.Op == token.SHR && isUnsigned(basic) {
